@@ -427,3 +427,83 @@ pub fn render_init(sh: &Shape, d: &D) -> String {
         _ => panic!("render_init: initialiser does not fit the shape"),
     }
 }
+
+// ---- constrained bytes of a valid image (for the error-position suite) -------------------------
+#[derive(Clone, Debug)]
+pub enum Constraint {
+    /// a `Bool` byte
+    Bool(usize),
+    /// an enum tag: offset, width, big-endian, number of variants
+    Tag(usize, usize, bool, usize),
+    /// the bytes of a string: `[start, end)`
+    Utf8(usize, usize),
+}
+/// walk a *valid* image of `sh` starting at `off` inside `b`, with `len` bytes available to the value, collecting its
+/// constrained bytes in validation order
+pub fn constraints(sh: &Shape, b: &[u8], off: usize, len: usize, out: &mut Vec<Constraint>) {
+    match sh {
+        Shape::Prim(..) => {}
+        Shape::Bool => out.push(Constraint::Bool(off)),
+        Shape::Arr(e, n) => {
+            let es = e.size();
+            for i in 0..*n { constraints(e, b, off + i * es, es, out); }
+        }
+        Shape::SStruct(fs) => {
+            for (f, o) in fs.iter().zip(Shape::field_offsets(fs)) { constraints(f, b, off + o, f.size(), out); }
+        }
+        Shape::CEnum(l, n) => out.push(Constraint::Tag(off, l.size, l.be, *n)),
+        Shape::SEnum(l, vs) | Shape::UEnum(l, vs) => {
+            out.push(Constraint::Tag(off, l.size, l.be, vs.len()));
+            let t = decode_len(l, &b[off..]) as usize;
+            if t >= vs.len() { return; }
+            let al = sh.align();
+            let doff = ceil_mul(l.size, al);
+            let avail = if len >= doff { (len - doff) / al * al } else { 0 };
+            let v = &vs[t];
+            let offs = Shape::field_offsets(v);
+            for (i, (f, o)) in v.iter().zip(offs).enumerate() {
+                let flen = if f.is_sized() { f.size() } else { avail.saturating_sub(o) };
+                let _ = i;
+                constraints(f, b, off + doff + o, flen, out);
+            }
+        }
+        Shape::Vec(e, l) => {
+            let n = decode_len(l, &b[off..]) as usize;
+            let doff = sh.data_offset();
+            let es = e.size();
+            for i in 0..n { if off + doff + (i + 1) * es <= b.len() { constraints(e, b, off + doff + i * es, es, out); } }
+        }
+        Shape::Str(l) => {
+            let n = decode_len(l, &b[off..]) as usize;
+            out.push(Constraint::Utf8(off + l.size, off + l.size + n));
+        }
+        Shape::Flex(e, l) => {
+            let al = sh.align();
+            let os = sh.data_offset();
+            let total = len / al * al;
+            let mut pos = 0usize;
+            let mut guard = 0;
+            while pos + l.size <= total && guard < 10000 {
+                guard += 1;
+                let next = decode_len(l, &b[off + pos..]);
+                if next == 0 { break; }
+                if next == l.max() {
+                    constraints(e, b, off + pos + os, total - pos - os, out);
+                    break;
+                }
+                let next = next as usize;
+                if next < os || pos + next > total { break; }
+                constraints(e, b, off + pos + os, next - os, out);
+                pos += next;
+            }
+        }
+        Shape::UStruct(fs) => {
+            let al = sh.align();
+            let avail = len / al * al;
+            for (f, o) in fs.iter().zip(Shape::field_offsets(fs)) {
+                let flen = if f.is_sized() { f.size() } else { avail.saturating_sub(o) };
+                constraints(f, b, off + o, flen, out);
+            }
+        }
+    }
+}
